@@ -113,6 +113,14 @@ def run(rep, tier, seed):
                         for st in (False, True):
                             cases.append((T, text, st))
                             rep.count('split_operator_names')
+    # unknown keys spelled with the characters that error messages and listings use as separators (a colon or a dot followed
+    # by a space inside a key of several words): every report names the whole keys, each once, in order
+    for w in ('LicenseRef: custom', 'see: notice', 'a: b: c', 'v. 2', 'name: second unknown', 'x:y', 'foo:, bar'):
+        for tmpl in ('%s', 'mit or %s', '%s and zz', 'first-unknown and mit or %s', '%s or other: terms', '(%s) and mit', 'mit with %s'):
+            for st in (False, True):
+                cases.append(([('mit', [], False), ('cp', [], True)], tmpl % w, st))
+                cases.append(([], tmpl % w, st))
+                rep.count('separator_characters_in_unknown_keys', 2)
     cache = {}
     reqs = []
     for T, s, st in cases:
